@@ -1271,9 +1271,37 @@ func (e missingSiteErr) Error() string { return e.msg }
 // call site that no longer exists cannot hold: it evaluates to false (under the antecedent of a
 // top-level implication when that part can still be evaluated).
 func (ec *evalCtx) evalClause(e CExpr) (Term, error) {
+	// a disjunct that talks about call sites not executed yet, or about locals not yet in scope,
+	// cannot be the reason the clause holds at this point: it counts as false
+	if bin, ok := e.(*CBin); ok && bin.Op == "||" {
+		l, lerr := ec.evalClause(bin.X)
+		r, rerr := ec.evalClause(bin.Y)
+		notYet := func(err error) bool {
+			if err == nil {
+				return false
+			}
+			_, ms := err.(missingSiteErr)
+			return ms || strings.Contains(err.Error(), "is not in scope here")
+		}
+		switch {
+		case lerr == nil && rerr == nil:
+			return or(l, r), nil
+		case lerr == nil && notYet(rerr):
+			return l, nil
+		case rerr == nil && notYet(lerr):
+			return r, nil
+		case lerr != nil:
+			return Term{}, lerr
+		default:
+			return Term{}, rerr
+		}
+	}
 	t, err := ec.evalBool(e)
 	if err == nil {
 		return t, nil
+	}
+	if strings.Contains(err.Error(), "is not in scope here") {
+		return tFalse, nil
 	}
 	if _, ok := err.(missingSiteErr); !ok {
 		return Term{}, err
